@@ -75,6 +75,8 @@ def guardActive : PC → Bool
   | .procTake _ => true
   | .procLoop _ _ _ _ => true
   | .procPutBack _ _ => true
+  | .procPbReadNc _ => true
+  | .procPbNotify _ => true
   | .procDec _ => true
   | _ => false
 
@@ -337,7 +339,7 @@ theorem step_getT {s : State} {t ch : Nat} {s' : State} (h : step s t ch = some 
   | some th => exact ⟨th, hg⟩
 
 /-- `step_cases h th hg hpc`: from `h : step s t ch = some s'` produce one goal per way the step can
-    happen (72), with `hg : s.threads[t]? = some th`, `hpc : th.pc = …`, the branch conditions, and
+    happen (75), with `hg : s.threads[t]? = some th`, `hpc : th.pc = …`, the branch conditions, and
     `s'` replaced by the explicit successor state -/
 syntax "step_cases " ident ident ident ident : tactic
 macro_rules
@@ -374,7 +376,7 @@ theorem notifyOne_thread (s : State) (ch : Nat) (u : Tid) :
 theorem step_length {s : State} {t ch : Nat} {s' : State} (h : step s t ch = some s') :
     s'.threads.length = s.threads.length := by
   step_cases h th hg hpc
-  case enqNotify | dqnNotify =>
+  case enqNotify | dqnNotify | procPbNotify =>
     rcases notifyOne_cases s ch with h | ⟨w, thw, timed, hw, hpc, h⟩ <;> rw [h] <;> simp
   all_goals simp
 
@@ -384,7 +386,7 @@ theorem step_others {s : State} {t ch : Nat} {s' : State} (h : step s t ch = som
     ∃ thu timed, s.threads[u]? = some thu ∧ thu.pc = .parked timed ∧
       s'.threads[u]? = some { thu with pc := .woken timed false } := by
   step_cases h th hg hpc
-  case enqNotify | dqnNotify =>
+  case enqNotify | dqnNotify | procPbNotify =>
     simp only [setT_threads, set_other _ hu]
     exact notifyOne_thread s ch u
   all_goals
